@@ -207,6 +207,12 @@ class SymbolicExpression(Generic[T], ABC):
     def _add_conclusion_(self, conclusion: Conclusion):
         self._conclusion_.add(conclusion)
 
+    def _reset_evaluation_state_(self):
+        """
+        Forget what a previous evaluation left on this node, called once per node when an evaluation starts.
+        """
+        self._is_false_ = False
+
     @lru_cache(maxsize=None)
     def _projection_(self, when_true: Optional[bool] = True) -> HashedIterable[int]:
         """
@@ -499,6 +505,8 @@ class ResultQuantifier(CanBehaveLikeAVariable[T], ABC):
         This is the exposed evaluation method for users.
         """
         SymbolGraph().remove_dead_instances()
+        for node in self._all_nodes_:
+            node._reset_evaluation_state_()
         yield from map(self._process_result_, self._evaluate__())
 
     def _evaluate__(
@@ -1600,6 +1608,11 @@ class OR(LogicalBinaryOperator, ABC):
         if self._parent_:
             projection.update(self._parent_._projection_(when_true))
         return projection
+
+    def _reset_evaluation_state_(self):
+        super()._reset_evaluation_state_()
+        self.left_evaluated = False
+        self.right_evaluated = False
 
     def evaluate_left(
         self,
